@@ -111,8 +111,133 @@ def chm_huge(rng):
                 yield S.file_lines(c) + ["new chm", "open i0 f.chm", "extract i0 h0 1 o1", "extract i0 h0 0 o0", "close i0 h0", "destroy i0"], \
                       dict(family="chm.huge-length", which=which, low=low, fadd=fadd)
 
+# (instantiation, nsyms, nbits, longest length the caller can pass, table entries the caller's struct declares)
+HUFF_SHAPES = [("lsb", 288, 9, 15, 1152), ("lsb", 32, 6, 15, 128),                       # mszipd.c LITERAL / DISTANCE
+               ("msb", 656, 12, 16, 4096 + 1312), ("msb", 250, 12, 16, 4096 + 500),      # lzxd.c MAINTREE / LENGTH
+               ("msb", 8, 7, 7, 128 + 16), ("msb", 20, 6, 15, 64 + 40),                  # lzxd.c ALIGNED (3-bit lengths) / PRETREE
+               ("msb-kwaj", 16, 9, 255, 512 + 32), ("msb-kwaj", 32, 9, 255, 512 + 64),   # kwajd.c: lengths are bytes the reader can wrap
+               ("msb-kwaj", 64, 9, 255, 512 + 128), ("msb-kwaj", 256, 9, 255, 512 + 512)]
+
+def huff_vectors(rng, nsyms, nbits, maxlen, n):
+    """code-length vectors of every kind: complete, under-subscribed, over-subscribed through short codes, over-subscribed
+    ONLY through codes longer than the lookup width, all zero, single code, random, lengths above 16 where the caller can
+    pass them"""
+    top = min(maxlen, 16)
+    for _ in range(n):
+        style = rng.choice(["complete", "under", "over-short", "over-long-only", "over-long-only", "zeros", "single", "random", "big"])
+        lens = [0] * nsyms
+        if style == "zeros": pass
+        elif style == "single": lens[rng.randrange(nsyms)] = rng.choice([1, min(nbits, top), top])
+        elif style == "random": lens = [rng.choice([0, 0, rng.randint(1, top)]) for _ in range(nsyms)]
+        elif style == "big": lens = [rng.choice([0, rng.randint(1, top), min(17, maxlen), min(200, maxlen)]) for _ in range(nsyms)]
+        else:
+            # fill the Kraft budget (units of 2^-16) with codes, short ones first
+            budget = 65536; short_budget = {"over-long-only": rng.choice([65536 - (1 << (16 - nbits)), 65536 // 2, 65536 - 256])}.get(style, 65536)
+            order = list(range(nsyms)); rng.shuffle(order)
+            if rng.random() < 0.5 and nsyms > (1 << nbits) // 2:
+                # a short code for a symbol >= 2^(nbits-1): its table entry, read as a node pointer, leads into the gap
+                hi = rng.randrange((1 << nbits) // 2, nsyms); order.remove(hi); order.insert(0, hi)
+            used = 0; longlo = min(nbits + 1, top)
+            for i in order:
+                l = rng.randint(1, min(nbits, top)) if used < short_budget else rng.randint(longlo, top)
+                u = 1 << (16 - l)
+                if style == "over-long-only":
+                    if l <= nbits and used + u > short_budget: l = rng.randint(longlo, top); u = 1 << (16 - l)
+                    lens[i] = l; used += u
+                    if used > 65536 + (1 << (16 - nbits)) * 3: break
+                elif style == "over-short":
+                    lens[i] = l; used += u
+                    if used > 65536: break
+                else:
+                    if used + u > budget: continue
+                    lens[i] = l; used += u
+                    if style == "under" and used > budget * 0.8: break
+        yield style, [min(x, 255) for x in lens]
+
+def huff_tables(ctx):
+    """make_decode_table() called directly (all three instantiations, the ten shapes its callers use) on the code-length
+    vectors each caller can pass, the table memory pre-filled by each fill byte.  The table is followed by as much room as
+    the smallest remainder of a caller's struct behind that table (observation O1: for vectors it goes on to reject the
+    function writes up to about 16-nbits+longcodes pairs past the declared size, inside the struct - not a C02 violation
+    as worded); a write beyond that leaves the heap object in the callers too.  The answer itself is compared with the
+    model's acceptance rule."""
+    rng = ctx.rng
+    n = 12 if ctx.tier == "quick" else 150
+    for kind, nsyms, nbits, maxlen, decl in HUFF_SHAPES:
+        tsize = decl + 2 * (nsyms + 16)
+        vecs = [bytes(v) for _, v in huff_vectors(rng, nsyms, nbits, maxlen, n)]
+        for fill in FILLS:
+            yield [f"fill {fill}"] + [f"prim mdt {kind} {nsyms} {nbits} {tsize} {v.hex()}" for v in vecs], \
+                  dict(family="huff.tables", shape=f"{kind}-{nsyms}-{nbits}", fill=fill, sig=f"huff-{kind}-{nsyms}-{nbits}-{fill}-{ctx.seed}")
+
+def huff_streams(ctx):
+    """the same vectors through the real decoders: an MSZIP dynamic block (in a cabinet and in a KWAJ file) whose
+    literal/distance code lengths are the vector, and a KWAJ LZH stream whose five length tables are vectors - the
+    decoder's own struct is the object that must not be left, whatever the allocator put in it"""
+    from vgen import deflate, huff
+    from vgen.bits import LSBBytes
+    rng = ctx.rng
+    n = 10 if ctx.tier == "quick" else 120
+    def mszip(ll, dl):
+        bw = LSBBytes(); bw.raw(b"CK"); bw.put(1, 1); bw.put(2, 2)
+        nl = max(257, max([i for i, x in enumerate(ll) if x] + [0]) + 1); nd = max(1, max([i for i, x in enumerate(dl) if x] + [0]) + 1)
+        cl = [0] * 19
+        for v in range(16): cl[v] = 4                       # sixteen 4-bit codes for the lengths 0..15, no repeat codes
+        cc = huff.canonical(cl)
+        bw.put(nl - 257, 5); bw.put(nd - 1, 5); bw.put(19 - 4, 4)
+        for s in deflate.CL_ORDER: bw.put(cl[s], 3)
+        for v in ll[:nl] + dl[:nd]: bw.huff(*cc[v])
+        bw.align(0); bw.raw(bytes(rng.randrange(256) for _ in range(24)))
+        return bw.getvalue()
+    lits = list(huff_vectors(rng, 286, 9, 15, n)); dists = list(huff_vectors(rng, 30, 6, 15, n))
+    for k in range(n):
+        (sl, ll), (sd, dl) = lits[k], dists[rng.randrange(n)]
+        if rng.random() < 0.5: dl = [5] * 30; sd = "fixed"
+        elif rng.random() < 0.3: ll = list(deflate.FIXED_LIT[:286]); sl = "fixed"
+        blk = mszip(ll, dl)
+        cab, _ = minicab.build([(1, [(blk, 32768)])], [dict(name=b"z.bin", length=32768, offset=0, folder=0)])
+        kw = b"KWAJ\x88\xf0\x27\xd1" + struct.pack("<HHH", 4, 14, 0) + struct.pack("<H", len(blk)) + blk
+        fill = FILLS[k % len(FILLS)]
+        yield [f"fill {fill}", f"file a.cab {cab.hex()}", "new cab", f"param i0 FIXMSZIP {k & 1}", "open i0 a.cab", "extract i0 h0 0 o0", "close i0 h0", "destroy i0"], \
+              dict(family="huff.streams", container="cab-mszip", lit=sl, dist=sd, fill=fill)
+        yield [f"fill {fill}", f"file f.kwj {kw.hex()}", "new kwaj", "open i0 f.kwj", "extract i0 h0 - out", "close i0 h0", "destroy i0"], \
+              dict(family="huff.streams", container="kwaj-mszip", lit=sl, dist=sd, fill=fill)
+    # KWAJ LZH: five 4-bit type nibbles, then per table its lengths in that type's coding (type 3 = raw 4-bit lengths,
+    # type 1 = run coding whose `++c` can count past 15)
+    for k in range(n):
+        bits = []
+        def put(v, nb):
+            for i in range(nb - 1, -1, -1): bits.append((v >> i) & 1)
+        styles = []
+        types = [rng.choice([3, 3, 3, 1]) for _ in range(5)]
+        for t in types: put(t, 4)
+        put(rng.randrange(16), 4)                            # the sixth nibble is read and ignored
+        for t, ns in zip(types, (16, 16, 32, 64, 256)):
+            st, v = next(huff_vectors(rng, ns, 9, 15, 1)); styles.append(st)
+            if t == 3:
+                for x in v: put(x, 4)
+            else:
+                c = v[0]; put(c, 4)
+                for x in v[1:]:
+                    if x == c: put(0, 1)
+                    elif x == c + 1: put(2, 2); c = x
+                    else: put(3, 2); put(x, 4); c = x
+        for _ in range(200): bits.append(rng.getrandbits(1))
+        while len(bits) % 8: bits.append(0)
+        data = bytearray()
+        for i in range(0, len(bits), 8):                     # bytes are injected one at a time, most significant bit first
+            w = 0
+            for bb in bits[i:i + 8]: w = (w << 1) | bb
+            data.append(w)
+        kw = b"KWAJ\x88\xf0\x27\xd1" + struct.pack("<HHH", 3, 14, 0) + bytes(data)
+        fill = FILLS[k % len(FILLS)]
+        yield [f"fill {fill}", f"file f.kwj {kw.hex()}", "new kwaj", "open i0 f.kwj", "extract i0 h0 - out", "close i0 h0", "destroy i0"], \
+              dict(family="huff.streams", container="kwaj-lzh", styles="/".join(styles), fill=fill)
+
 def generate(ctx):
     rng = ctx.rng
+    yield from huff_tables(ctx)
+    yield from huff_streams(ctx)
     for lines, meta in directed(rng):
         yield lines, meta
     for lines, meta in chm_huge(rng):
@@ -153,6 +278,13 @@ def judge(ctx, meta, impl, model):
         for x in b:
             if x.startswith("MONITOR") and any(k in x for k in ("double-free", "free-unknown", "use-closed", "null-handle")):
                 fs.append(Finding("violation", f"{meta['family']}: {x}"))
+    if model is not None and meta.get("family") == "huff.tables":
+        pi = [b[0].split(" ")[2] != "0" for b in impl if b[0].startswith("prim mdt")]
+        pm = [b[0].split(" ")[2] != "0" for b in model if b[0].startswith("prim mdt")]
+        if pi != pm and not any(b[0].startswith("CRASH") for b in impl):
+            k = next((i for i, (x, y) in enumerate(zip(pi, pm)) if x != y), min(len(pi), len(pm)))
+            fs.append(Finding("mismatch", f"make_decode_table accept/reject differs from the model's rule at vector {k} of {meta['shape']} ({len(pi)} vs {len(pm)} answers)"))
+        return fs
     if model is not None:
         def proj(blocks):
             out = []
